@@ -9,6 +9,7 @@ Oracle clauses:
                              points yields the same (unwrapped) replies and the same process-visible event log and outcome
   reply_vs_call              (deliveries at arbitrary virtual times, delayed / duplicated / reordered) the reply equals the
                              unwrapped return value of the control call the handler actually made
+  reply_is_future            RemoteProcessController hands back a future object as "the reply"
   reply_pending              a reply future never completes although the loop is quiescent
   remote_kill_lost           a kill handled while the process was live did not end it KILLED (EXCEPTED if the step failed)
   broadcast_sequence         an independent subscriber / the send log sees exactly one state_changed.<from>.<to> per
